@@ -4,13 +4,15 @@ from vlib import *
 import pgenlib
 
 ID = "C10"
-COQ_FILES = ["Common/Corr.v", "Model/Relink.v", "Proofs/Relink.v", "Props/C10.v"]
+COQ_FILES = ["Common/Corr.v", "Model/Relink.v", "Proofs/Relink.v", "Model/JsonNames.v", "Proofs/JsonNames.v", "Props/C10.v"]
 PROPS = "Props/C10.v"
-THEOREMS = ["C10_resolve_absolute_idempotent", "C10_link_absolute_unchanged", "C10_link_idempotent", "C10_linked_refs_absolute"]
+THEOREMS = ["C10_resolve_absolute_idempotent", "C10_link_absolute_unchanged", "C10_link_idempotent", "C10_linked_refs_absolute",
+            "C10_relink_json_errors_subset", "C10_relink_json_no_new_errors"]
 AXIOMS_OK = []
 TRUSTED = ["hand-written Gallina model Model/Relink.v of linker/resolve.go (resolve, resolveElement, resolveInFile order, resolveElementInFile, resolveElementRelative, fileScope, messageScope, and the rewriting of type_name / extendee / input_type / output_type) over a flattened file: visible symbols + references with their scopes",
-           "correspondence harness harness/cmd/relink (public API only) and the program generator checks/pgenlib.py"]
-ASSUMPTIONS = ["the theorem is about the reference-rewriting part of linking; that every other part of the second compilation (symbol registration, option interpretation of already-interpreted options, validation, descriptor.proto handling) is the identity on a compiled proto is established by the direct oracle only (byte-identical deterministic marshal on every generated program and every compilable file of the repository's testdata), not proved",
+           "hand-written Gallina model Model/JsonNames.v of linker/validate.go validateFieldJSONNames / hasCustomJSONName with and without the AST (a collecting reporter), validated on every run against the JSON-name warnings and errors the real source compilation and the real re-link report per file",
+           "correspondence harness harness/cmd/relink (public API only; internal.JSONName is read, not re-implemented) and the program generators checks/pgenlib.py and gen_warned in checks/C10.py"]
+ASSUMPTIONS = ["the theorems are about the reference-rewriting part of linking and about the JSON-name validation of message fields on the second pass; that every other part of the second compilation (symbol registration, option interpretation of already-interpreted options, validation, descriptor.proto handling) is the identity on a compiled proto is established by the direct oracle only (byte-identical deterministic marshal on every generated program and every compilable file of the repository's testdata), not proved",
                "for imported google/protobuf/*.proto files only messages and enums are put into the visible-symbol table of the correspondence (their fields are never the first component of a type reference)",
                "the serialised-and-decoded variant is compared after decoding both sides against the compiled extension types, because protobuf-go emits known extensions before unknown fields"]
 
@@ -70,18 +72,190 @@ def testdata_cases():
     return out
 
 
+# ------------------------------------------------------------------------------------------------
+# Programs whose compilation from source succeeds WITH WARNINGS, and pseudo-options. Every condition the compiler only
+# warns about is a decision taken with the source at hand; the re-link takes it again from the descriptor proto alone.
+JSON_GROUPS = [["foo_bar", "fooBar"], ["foo_bar", "fooBar", "foo__bar"], ["a_b_c", "aB_c"], ["x__y", "x_y"], ["_z", "Z"],
+               ["long_name_1", "longName1", "long__name_1"], ["v_2", "v2"]]
+ENUM_GROUPS = [["%s_FOO_BAR", "FOO_BAR"], ["%s_FOO_BAR", "foo_bar", "Foo_Bar"], ["A_B", "%s_A_B", "a_b"], ["X__Y", "X_Y"]]
+UNUSED_STD = ["google/protobuf/any.proto", "google/protobuf/timestamp.proto", "google/protobuf/descriptor.proto", "google/protobuf/empty.proto"]
+
+
+def gen_warned(rng, want=None):
+    """A program of 1-3 files; each file takes one or more warning-only ingredients: no syntax declaration, unused imports
+    (of an earlier file, public or not, or of a standard file), default JSON names of fields that collide in a message that is
+    not JSON compliant (proto2; editions with json_format = LEGACY_BEST_EFFORT on the file or the message; also with one side
+    renamed by a custom json_name, inside oneofs, with map fields and groups), enum values whose camel-case names collide (same
+    conditions), a deprecated feature (pb.go legacy_unmarshal_json_enum). Plus the pseudo-options json_name (also spelled equal
+    to the default name) and default. `want` forces one ingredient."""
+    files, order, exported = {}, [], []
+    uid = [0]
+
+    def nid():
+        uid[0] += 1
+        return uid[0]
+    nfiles = rng.range(1, 3)
+    forced_at = rng.below(nfiles)
+    for i in range(nfiles):
+        syn = rng.choice(["proto2", "proto2", "nosyntax", "editions", "editions", "proto3"])
+        ing = set(x for x in ("unused", "json", "enum", "samejson", "deprecated") if rng.chance(1, 3))
+        forced = None
+        if i == forced_at:
+            forced = want or rng.choice(["unused", "json", "enum", "nosyntax", "deprecated"])
+            ing.add(forced)
+            if forced in ("json", "enum") and syn == "proto3":
+                syn = "proto2"
+        if "nosyntax" in ing:
+            syn = "nosyntax"
+        if "deprecated" in ing:
+            syn = "editions"
+        if syn == "proto3":
+            ing -= {"json", "enum"}       # errors there
+        p2 = syn in ("proto2", "nosyntax")
+        lab = "optional " if p2 else ""
+        name = "w%d.proto" % i
+        pkg = rng.choice(["", "w%d" % i, "w.sub%d" % i])
+        head, body = [], []
+        if syn == "editions":
+            head.append('edition = "2023";')
+        elif syn != "nosyntax":
+            head.append('syntax = "%s";' % syn)
+        if pkg:
+            head.append("package %s;" % pkg)
+        file_legacy = syn == "editions" and rng.chance(1, 2)
+        force_msg_legacy = syn == "editions" and not file_legacy and forced in ("json", "enum")
+        # imports: used and unused
+        used = []
+        for (fn, fpkg, msgs) in exported:
+            r = rng.below(4)
+            if r == 0 and msgs:
+                head.append('import %s"%s";' % ("public " if rng.chance(1, 4) else "", fn))
+                used.append("." + (fpkg + "." if fpkg else "") + rng.choice(msgs))
+            elif r == 1 or ("unused" in ing and r == 2):
+                head.append('import %s"%s";' % ("public " if rng.chance(1, 4) else "", fn))
+        if "unused" in ing:
+            for std in rng.shuffle(UNUSED_STD)[: rng.range(1, 2)]:
+                head.append('import "%s";' % std)
+        if "deprecated" in ing:
+            head.append('import "google/protobuf/go_features.proto";')
+            if rng.chance(1, 2):
+                head.append("option features.(pb.go).legacy_unmarshal_json_enum = true;")
+        if file_legacy:
+            head.append("option features.json_format = LEGACY_BEST_EFFORT;")
+        my_msgs = []
+        for _ in range(rng.range(1, 3)):
+            mname = "W%d" % nid()
+            my_msgs.append(mname)
+            lines = ["message %s {" % mname]
+            msg_legacy = False
+            if syn == "editions" and not file_legacy and (force_msg_legacy or rng.chance(1, 2)):
+                lines.append("  option features.json_format = LEGACY_BEST_EFFORT;")
+                msg_legacy = True
+            tolerant = p2 or file_legacy or msg_legacy
+            num = [0]
+
+            def fld(fname, typ="int32", opts=None, ind="  ", label=None):
+                num[0] += rng.range(1, 3)
+                o = " [%s]" % ", ".join(opts) if opts else ""
+                return "%s%s%s %s = %d%s;" % (ind, lab if label is None else label, typ, fname, num[0], o)
+            stmts = []
+            if "json" in ing and tolerant:
+                grp = list(rng.choice(JSON_GROUPS))
+                k = rng.below(6)
+                fl = []
+                for j, fname in enumerate(rng.shuffle(grp)):
+                    opts = []
+                    if k == 0 and j == 0:
+                        opts.append('json_name = "renamed%d"' % nid())      # one side custom: the defaults still collide
+                    typ = rng.choice(["int32", "string", "bool", "bytes", "uint64"])
+                    fl.append((fname, typ, opts))
+                if k == 1 and len(fl) >= 2:
+                    # two of them inside a oneof
+                    stmts.append(fld(fl[0][0], fl[0][1], fl[0][2]))
+                    inner = [fld(f[0], f[1], f[2], ind="    ", label="") for f in fl[1:]]
+                    stmts.append("  oneof o%d {\n%s\n  }" % (nid(), "\n".join(inner)))
+                elif k == 2:
+                    # a map field on one side
+                    stmts.append(fld(fl[0][0], "map<string, int32>", fl[0][2], label=""))
+                    stmts += [fld(f[0], f[1], f[2]) for f in fl[1:]]
+                elif k == 3:
+                    stmts += [fld(f[0], f[1], f[2], label="repeated ") for f in fl]
+                else:
+                    stmts += [fld(f[0], f[1], f[2]) for f in fl]
+            if "samejson" in ing or rng.chance(1, 3):
+                stmts.append(fld("q_r%d" % nid(), "string", ['json_name = "qR%d"' % uid[0]]))      # explicit, equal to the default
+            if rng.chance(1, 3):
+                stmts.append(fld("c_d%d" % nid(), "int32", ['json_name = "other%d"' % uid[0]]))
+            if syn != "proto3" and rng.chance(1, 2):
+                k = rng.below(4)
+                typ, dv = [("int32", "-7"), ("string", '"a\\"b"'), ("double", "-inf"), ("uint64", "0xFFFFFFFFFFFFFFFF")][k]
+                stmts.append(fld("d%d" % nid(), typ, ["default = %s" % dv] + (['json_name = "D%d"' % uid[0]] if rng.chance(1, 3) else [])))
+            if used and rng.chance(2, 3):
+                stmts.append(fld("u%d" % nid(), rng.choice(used)))
+            if p2 and rng.chance(1, 4):
+                num[0] += 1
+                stmts.append("  optional group Grp%d = %d { optional int32 g_x = 1; optional int32 gX = 2; }" % (nid(), num[0]))
+            if "enum" in ing and tolerant and (forced == "enum" or rng.chance(1, 2)):
+                ename = "N%d" % nid()
+                vals = [v % ename if "%s" in v else v for v in rng.choice(ENUM_GROUPS)]
+                stmts.append("  enum %s { %s }" % (ename, " ".join("%s = %d;" % (v, j) for j, v in enumerate(vals))))
+            if not stmts:
+                stmts.append(fld("only%d" % nid()))
+            lines += rng.shuffle(stmts)
+            lines.append("}")
+            body += lines
+        if "enum" in ing and (p2 or file_legacy):
+            ename = "T%d" % nid()
+            vals = [v % ename if "%s" in v else v for v in rng.choice(ENUM_GROUPS)]
+            extra = ""
+            if "deprecated" in ing:
+                extra = " option features.(pb.go).legacy_unmarshal_json_enum = true;"
+            body.append("enum %s {%s %s }" % (ename, extra, " ".join("%s = %d;" % (v, j) for j, v in enumerate(vals))))
+        elif "deprecated" in ing:
+            body.append("enum T%d { option features.(pb.go).legacy_unmarshal_json_enum = true; T%d_Z = 0; }" % (nid(), uid[0]))
+        files[name] = "\n".join(head + body) + "\n"
+        order.append(name)
+        exported.append((name, pkg, my_msgs))
+    return files, order
+
+
+CORPUS_WARNED = [
+    # the shape of the defect class: default JSON names collide in proto2 (warning from source)
+    'syntax = "proto2";\nmessage M { optional string foo_bar = 1; optional string fooBar = 2; }\n',
+    'message NoSyntax { optional int32 a_b = 1; optional int32 aB = 2; optional int32 a__b = 3; }\n',
+    'edition = "2023";\noption features.json_format = LEGACY_BEST_EFFORT;\nmessage M { int32 foo_bar = 1; int32 fooBar = 2; enum E { E_A_B = 0; A_B = 1; } }\n',
+    'edition = "2023";\nmessage M { option features.json_format = LEGACY_BEST_EFFORT; int32 foo_bar = 1 [json_name = "x"]; int32 fooBar = 2; message Strict { int32 p_q = 1 [json_name = "pQ"]; } }\n',
+    'syntax = "proto2";\nimport "google/protobuf/any.proto";\nimport public "google/protobuf/empty.proto";\nenum E { E_FOO_BAR = 0; FOO_BAR = 1; foo_bar = 2; }\nmessage M { oneof o { int32 x_y = 1; int32 xY = 2; } map<string, int32> x__y = 3; }\n',
+    'edition = "2023";\nimport "google/protobuf/go_features.proto";\noption features.(pb.go).legacy_unmarshal_json_enum = true;\nenum E { option features.(pb.go).legacy_unmarshal_json_enum = true; A = 0; }\n',
+    # explicit json_name equal to the default name: custom for the source compilation, default for the re-link
+    'syntax = "proto3";\nmessage M { int32 foo_bar = 1 [json_name = "fooBar"]; int32 baz = 2 [json_name = "baz"]; }\n',
+]
+
+
+def c_jfile(d):
+    msgs = "; ".join("(%s, [%s])" % (coq_bool(m["compliant"]), "; ".join("mkjf %s %s %s %s" % (c_str(f[0]), c_str(f[1]), c_str(f[2]), coq_bool(f[3])) for f in m["fields"]))
+                     for m in d["msgs"])
+    return "JFile [%s] %d %d %d" % (msgs, d["src_warn"], d["rl_warn"], d["rl_err"])
+
+
 def run(ctx):
     import time as _t0
     ctx.extra["t_run_start"] = round(_t0.time() - ctx.t0, 1)
     rng = ctx.rng
-    nprog = ctx.budget(180, 3000)
+    nprog = ctx.budget(160, 3000)
+    nwarn = ctx.budget(70, 1200)    # programs that compile from source with warnings
     ncorr = ctx.budget(30, 400)     # programs whose references are also run through the Coq model
     ctx.rule = ("hand-written programs with shadowing names + every compilable .proto of the repository's internal/testdata (each against the root directory it is written for) + %d generated "
                 "multi-file programs (proto2/proto3/editions, imports incl. public, type references spelled absolute / fully qualified / relative to an enclosing "
                 "message or package prefix, maps, groups, extensions, custom options with message values, services, feature overrides); each compiled and its "
                 "output protos fed back (all files incl. dependencies) as the objects themselves, as serialised-and-decoded copies and as linked descriptors, "
-                "under source-info modes {none, standard, extra} with the same or a different mode for the second compilation; one evaluation = one program x "
-                "modes (the first %d generated programs and all testdata files also go through the Coq model of name resolution); non-trivial = the program has at least one message/enum-typed reference" % (nprog, ncorr))
+                "and in a mixed form (a random subset of the files as protos, the rest from source), "
+                "under source-info modes {none, standard, extra} with the same or a different mode for the second compilation; + %d programs that compile from "
+                "source WITH WARNINGS (every warning-only condition of the compiler: no syntax declaration, unused imports, colliding default JSON names of fields "
+                "and camel-case names of enum values in proto2 / LEGACY_BEST_EFFORT scopes, deprecated features) and carry the pseudo-options json_name (also equal to "
+                "the default) and default; the JSON-name validation of their messages goes through the Coq model with and without the AST; one evaluation = one program x "
+                "modes (the first %d generated programs and all testdata files also go through the Coq model of name resolution); non-trivial = the program has at least one message/enum-typed reference "
+                "or compiled with a warning" % (nprog, nwarn, ncorr))
     cases = []
     cfg = pgenlib.Cfg(max_depth=3)
     for k in range(nprog):
@@ -93,6 +267,21 @@ def run(ctx):
         cases.append(c)
     for t in pgenlib.CORPUS_SHADOW:
         cases.insert(0, {"files": {"c.proto": t}, "order": ["c.proto"], "mode": 1, "corr": True, "origin": "corpus"})
+    for t in CORPUS_WARNED + pgenlib.CORPUS_C04 + pgenlib.CORPUS_C04_LOOKUPS:
+        cases.insert(0, {"files": {"c.proto": t}, "order": ["c.proto"], "mode": rng.choice([0, 1, 7]), "corr": False, "jcorr": True, "origin": "corpus"})
+    classes = ["unused", "json", "enum", "nosyntax", "deprecated"]
+    for k in range(nwarn):
+        files, order = gen_warned(rng, classes[k % len(classes)])
+        c = {"files": files, "order": order, "mode": rng.choice([0, 1, 1, 3, 7]), "corr": False, "jcorr": True, "origin": "warned"}
+        if rng.chance(1, 4):
+            c["mode2"] = rng.choice([0, 1, 3])
+        cases.append(c)
+    # mixed input forms: a random non-empty subset of the files as protos
+    for c in cases:
+        names = list(c["order"])
+        if c["origin"] in ("generated", "warned", "corpus"):
+            sub = [n for n in names if rng.chance(1, 2)] or [rng.choice(names)]
+            c["asproto"] = sub
     tcases = testdata_cases()
     for c in tcases:
         c["mode"] = 1
@@ -106,6 +295,7 @@ def run(ctx):
         cases.append(c)
     outs = ctx.impl("relink", [{k: c[k] for k in c if k != "origin"} for c in cases], shards=NCPU)
     terms, meta = [], []
+    jterms = {}
     stats = {"accepted": 0, "rejected": 0, "testdata_accepted": 0, "testdata_rejected": 0, "refs": 0, "relative_refs": 0,
              "bytewise_equal_after_reserialising": 0, "corr_skipped": 0}
     for c, o in zip(cases, outs):
@@ -125,14 +315,24 @@ def run(ctx):
             continue
         stats["testdata_accepted" if td else "accepted"] += 1
         nrefs = o.get("nrefs", 0)
-        ctx.count((c["origin"], tuple(c["order"]), c["mode"], c.get("mode2"), hash(c["files"][c["order"][0]])), nrefs > 0,
-                  ("testdata" if td else "generated") + ("-mode-change" if "mode2" in c and c["mode2"] != c["mode"] else ""))
+        warned = sorted(k for k, n in (o.get("warnings") or {}).items() if n)
+        for w in warned:
+            stats["warned:" + w] = stats.get("warned:" + w, 0) + 1
+        ctx.count((c["origin"], tuple(c["order"]), c["mode"], c.get("mode2"), hash(c["files"][c["order"][0]])), nrefs > 0 or bool(warned),
+                  ("testdata" if td else c["origin"]) + ("-mode-change" if "mode2" in c and c["mode2"] != c["mode"] else "")
+                  + ("-warned" if warned else ""))
+        rep["warnings_of_the_first_compilation"] = o.get("warnings")
+        if "asproto" in c:
+            rep["asproto"] = c["asproto"]
         # ---- direct oracle
         for variant, what in (("object", "the output FileDescriptorProto objects"), ("bytes", "serialised and decoded copies of the output protos"),
-                              ("desc", "the linked descriptors")):
+                              ("desc", "the linked descriptors"), ("mixed", "the output protos of some files and the source of the others")):
+            if variant not in o:
+                continue
             v = o[variant]
             if "err" in v:
-                ctx.violation("relink-fails:" + variant, "compiling again from %s fails: %s" % (what, v["err"]), dict(rep, variant=variant, error=v["err"]))
+                ctx.violation("relink-fails:" + variant, "compiling again from %s fails: %s" % (what, v["err"]),
+                              dict(rep, variant=variant, error=v["err"], errors=v.get("errors")))
             elif v["diff"]:
                 d = v["diff"][0]
                 ctx.violation("relink-differs:" + variant, "compiling again from %s gives a different descriptor proto for %s" % (what, d["file"]),
@@ -162,11 +362,20 @@ def run(ctx):
             stats["relative_refs"] += sum(1 for r in refs if not r["before"].startswith("."))
             terms.append(t)
             meta.append(dict(rep, file=d["name"], refs=refs[:40]))
+        for d in o.get("jcorr") or []:
+            jt = c_jfile(d)
+            if jt not in jterms:
+                jterms[jt] = dict(rep, file=d["name"], json_facts=d)
+        if len(ctx.samples) < 5 and c["origin"] == "warned" and warned and len(c["files"][c["order"][-1]]) < 700:
+            ctx.sample({"order": c["order"], "mode": c["mode"], "warnings": o.get("warnings"), "last_file": c["files"][c["order"][-1]]})
         if len(ctx.samples) < 3 and not td and len(c["files"][c["order"][-1]]) < 700:
             ctx.sample({"order": c["order"], "mode": c["mode"], "last_file": c["files"][c["order"][-1]]})
     ctx.extra["c10_stats"] = stats
     if stats["accepted"] < 20:
         raise RuntimeError("too few accepted programs: %r" % stats)
+    for w in ("no-syntax", "unused-import", "json-field", "json-enum", "deprecated-feature"):
+        if stats.get("warned:" + w, 0) < 5:
+            raise RuntimeError("too few accepted programs with a %s warning: %r" % (w, stats))
     header = ("From Coq Require Import List Bool String.\nImport ListNotations.\n"
               "From PV Require Import Common.Corr Model.Relink.\nOpen Scope string_scope.\nOpen Scope list_scope.\n")
     uniq = {}
@@ -183,3 +392,15 @@ def run(ctx):
         raise RuntimeError(err)
     for k in mism:
         ctx.corr_break("relink:resolve", uniq[uterms[k]], {"file": uniq[uterms[k]]["file"]})
+    # ---- JSON-name validation with and without the AST against Model/JsonNames.v
+    jlist = list(jterms)
+    ctx.extra["json_terms"] = len(jlist)
+    for jt in jlist:
+        ctx.count(("json", jt), " true" in jt, "json-names-file")
+    jheader = ("From Coq Require Import List Bool String.\nImport ListNotations.\n"
+               "From PV Require Import Common.Corr Model.JsonNames.\nOpen Scope string_scope.\nOpen Scope list_scope.\n")
+    jm, err = coq_eval_mismatches("cases_C10j", jheader, jlist, "json_chk", shard_size=ctx.budget(60, 150))
+    if err:
+        raise RuntimeError(err)
+    for k in jm:
+        ctx.corr_break("relink:json-names", jterms[jlist[k]], {"file": jterms[jlist[k]]["file"], "term": jlist[k][:600]})
